@@ -77,6 +77,12 @@ impl Rec {
         if let Ok(mut l) = LABEL.lock() {
             *l = Some((class.to_string(), text.to_string()));
         }
+        if ANNOUNCE.load(Ordering::Relaxed) {
+            let so = std::io::stdout();
+            let mut l = so.lock();
+            let _ = writeln!(l, "{}", json!({"t":"label","class":class,"text":text}));
+            let _ = l.flush();
+        }
     }
     pub fn payload(&self) -> Option<&str> {
         self.cur_payload.as_deref()
@@ -528,6 +534,10 @@ impl Ctx {
     where
         F: Fn(u64, &mut Rec) + Sync,
     {
+        // a worker is one of up to `threads` sibling processes: cap its memory so that a runaway case
+        // ends in an allocation failure of this process (reported as that case's abort)
+        crate::alloc::set_cap(3 << 30);
+        ANNOUNCE.store(verbose, Ordering::Relaxed);
         // watchdog: abort the process when one case exceeds the horizon
         static CUR: AtomicU64 = AtomicU64::new(0);
         static CUR_T: AtomicU64 = AtomicU64::new(0);
@@ -632,7 +642,7 @@ impl Ctx {
                                     done.fetch_add(i + 1 - lo, Ordering::Relaxed);
                                     lo = i + 1;
                                 }
-                                ChildEnd::Died(status, last_at) => {
+                                ChildEnd::Died(status, last_at, last_label) => {
                                     deaths += 1;
                                     if deaths > 200 {
                                         mach.lock().unwrap().push(format!("sweep {}: too many child deaths in shard ending {}", name, hi));
@@ -641,7 +651,10 @@ impl Ctx {
                                     if verbose {
                                         if let Some(i) = last_at {
                                             rec.set_case(i, None);
-                                            rec.fail(format!("{}|{}|abort|{}", prop, name, status), format!("sweep {} index {}", name, i), format!("process died: {}", status), "returns or panics (no abort, stack overflow or memory exhaustion)");
+                                            match last_label {
+                                                Some((class, text)) => rec.fail(format!("{}|{}|abort|{}|{}", prop, name, status, class), format!("{} (sweep {} index {})", text, name, i), format!("process died: {} (signal 6 = abort, e.g. allocation failure under the 3 GiB cap of a worker)", status), "returns or panics (no abort, stack overflow or memory exhaustion)"),
+                                                None => rec.fail(format!("{}|{}|abort|{}", prop, name, status), format!("sweep {} index {}", name, i), format!("process died: {}", status), "returns or panics (no abort, stack overflow or memory exhaustion)"),
+                                            }
                                             done.fetch_add(i + 1 - lo, Ordering::Relaxed);
                                             lo = i + 1;
                                             verbose = false;
@@ -795,11 +808,13 @@ pub fn panic_class(p: &str) -> String {
 /// label of the case that is running now (class for the signature, text for the report); a worker's
 /// watchdog reports it when the case does not return
 static LABEL: Mutex<Option<(String, String)>> = Mutex::new(None);
+/// set in a worker that announces every case (re-run after an abnormal death): labels are printed too
+static ANNOUNCE: AtomicBool = AtomicBool::new(false);
 
 enum ChildEnd {
     Done,
     Hang(u64, f64, Option<(String, String)>),
-    Died(String, Option<u64>),
+    Died(String, Option<u64>, Option<(String, String)>),
 }
 
 #[allow(clippy::too_many_arguments)]
@@ -821,10 +836,11 @@ fn run_child(exe: &std::path::Path, prop: &str, tier: Tier, seed: u64, sweep: &s
     cmd.env("DV_THREADS", "1");
     let mut child = match cmd.spawn() {
         Ok(c) => c,
-        Err(e) => return ChildEnd::Died(format!("spawn failed: {}", e), None),
+        Err(e) => return ChildEnd::Died(format!("spawn failed: {}", e), None, None),
     };
     let so = child.stdout.take().unwrap();
     let mut last_at = None;
+    let mut last_label: Option<(String, String)> = None;
     let mut hang = None;
     let mut finished = false;
     let mut local = Rec::new(sweep);
@@ -838,7 +854,11 @@ fn run_child(exe: &std::path::Path, prop: &str, tier: Tier, seed: u64, sweep: &s
             Err(_) => continue,
         };
         match v["t"].as_str().unwrap_or("") {
-            "at" => last_at = v["index"].as_u64(),
+            "at" => {
+                last_at = v["index"].as_u64();
+                last_label = None;
+            }
+            "label" => last_label = v["class"].as_str().map(|c| (c.to_string(), v["text"].as_str().unwrap_or("").to_string())),
             "hang" => hang = Some((v["index"].as_u64().unwrap_or(lo), v["secs"].as_f64().unwrap_or(0.0), v["class"].as_str().map(|c| (c.to_string(), v["text"].as_str().unwrap_or("").to_string())))),
             "finding" => {
                 local.set_case(v["index"].as_u64().unwrap_or(0), None);
@@ -912,7 +932,7 @@ fn run_child(exe: &std::path::Path, prop: &str, tier: Tier, seed: u64, sweep: &s
     if verbose {
         merge(rec, local, last_at);
     }
-    ChildEnd::Died(st, last_at)
+    ChildEnd::Died(st, last_at, last_label)
 }
 
 // ---------------------------------------------------------------------------------------------
